@@ -16,6 +16,7 @@ import Lattigo.Model.Params
     bgv_new logN= rt= Q= P= t=                         → accept nT= slots= logslots= qmul= | err:<cls>
     derived logN= rt= Q= P= lds= ks=<ivec> is=<b:n;…> tr=<ivec>
     accessors logN= rt= Q= P= ws=<vec>                 → qim= pim= brns= maxbit= b2= logqi= logpi= qlvl= counts= maxlevels=
+    codec_keys type=<rlweLit|btp|btpLit> <fields>        → keys=<JSON keys in emission order> [nulls=] [xs= xe= it=]
     exported name= logN= xsH= Q= P=                    → bitQ= bitP= bitQP= kind= table= within= strict= known=
     table logN= kind=                                  → <T> | none
 -/
@@ -121,6 +122,77 @@ def handleAccessors (toks : List String) : Option String := do
     s!"b2={showIRows b2} logqi={showVec logqi} logpi={showVec logpi} qlvl={showVec qlvl} " ++
     s!"counts={nq},{np},{nq + np} maxlevels={a.maxLevel},{a.maxLevel},{a.maxLevelP}")
 
+/-! codec field lists (`codec_keys`) -/
+
+def showNames (l : List String) : String := if l.isEmpty then "-" else ",".intercalate l
+
+def parseDist? (s : String) : Option (Option Dist) :=
+  if s == "nil" then some none
+  else if s == "U" then some (some .uniform)
+  else match s.splitOn ":" with
+    | ["T", p, h] => do some (some (.ternary (← p.toNat?) (← h.toInt?)))
+    | ["G", a, b] => do some (some (.gaussian (← a.toNat?) (← b.toNat?)))
+    | _ => none
+
+def parsePtr? (s : String) : Option (Option Int) := if s == "nil" then some none else s.toInt?.map some
+
+def parseIter? (s : String) : Option (Option Iter) :=
+  if s == "nil" then some none
+  else match s.splitOn ":" with
+    | [pr, r] => do
+      let r ← r.toInt?
+      if pr == "nil" then some (some { precision := none, reserved := r })
+      else some (some { precision := some (List.replicate (← pr.toNat?) 1), reserved := r })
+    | _ => none
+
+def parseRows? (s : String) : Option (Option (List (List Int))) :=
+  if s == "nil" then some none
+  else if s == "-" then some (some [])
+  else ((s.splitOn ";").mapM parseIVec?).map some
+
+def handleCodecKeys (toks : List String) : Option String := do
+  let ty ← kv? toks "type"
+  if ty == "rlweLit" then
+    let logN ← (← kv? toks "logN").toInt?
+    let root ← (← kv? toks "root").toInt?
+    let q ← optVec? (← kv? toks "Q")
+    let p ← optVec? (← kv? toks "P")
+    let logQ ← optIVec? (← kv? toks "LogQ")
+    let logP ← optIVec? (← kv? toks "LogP")
+    let xe ← parseDist? (← kv? toks "xe")
+    let xs ← parseDist? (← kv? toks "xs")
+    let rt ← (← kv? toks "rt").toNat?
+    let ntt := (← kv? toks "ntt") == "1"
+    let o := encodeRlweLit ⟨logN, root, q, p, logQ, logP, xe, xs, rt, 0, ntt⟩
+    some s!"keys={showNames (keyNames o)} xs={showNames (subKeys (o.get .Xs))} xe={showNames (subKeys (o.get .Xe))}"
+  else if ty == "btp" then
+    let it ← parseIter? (← kv? toks "it")
+    let eph ← (← kv? toks "eph").toInt?
+    let co ← (← kv? toks "co").toInt?
+    let o := encodeBtp ⟨1, 2, 3, 4, 5, it, eph, co⟩
+    some s!"keys={showNames (keyNames o)} nulls={showNames (nullKeys o)} it={showNames (subKeys (o.get .IterationsParameters))}"
+  else if ty == "btpLit" then
+    let logN ← parsePtr? (← kv? toks "logN")
+    let logP ← optIVec? (← kv? toks "logP")
+    let xs ← parseDist? (← kv? toks "xs")
+    let xe ← parseDist? (← kv? toks "xe")
+    let logSlots ← parsePtr? (← kv? toks "logSlots")
+    let c2s ← parseRows? (← kv? toks "c2s")
+    let s2c ← parseRows? (← kv? toks "s2c")
+    let ev ← parsePtr? (← kv? toks "ev")
+    let eph ← parsePtr? (← kv? toks "eph")
+    let it ← parseIter? (← kv? toks "it")
+    let m1t ← (← kv? toks "m1t").toInt?
+    let lmr ← parsePtr? (← kv? toks "lmr")
+    let k ← parsePtr? (← kv? toks "k")
+    let md ← parsePtr? (← kv? toks "md")
+    let da ← parsePtr? (← kv? toks "da")
+    let mi ← parsePtr? (← kv? toks "mi")
+    let o := encodeBtpLit ⟨logN, logP, xs, xe, logSlots, c2s, s2c, ev, eph, it, m1t, lmr, k, md, da, mi⟩
+    some (s!"keys={showNames (keyNames o)} nulls={showNames (nullKeys o)} xs={showNames (subKeys (o.get .Xs))} " ++
+      s!"xe={showNames (subKeys (o.get .Xe))} it={showNames (subKeys (o.get .IterationsParameters))}")
+  else none
+
 def handleExported (toks : List String) : Option String := do
   let name ← kv? toks "name"
   let logN ← (← kv? toks "logN").toNat?
@@ -188,6 +260,7 @@ def handle (toks : List String) : String :=
     | _ => badOp
   | "derived" :: rest => (handleDerived rest).getD badOp
   | "accessors" :: rest => (handleAccessors rest).getD badOp
+  | "codec_keys" :: rest => (handleCodecKeys rest).getD badOp
   | "exported" :: rest => (handleExported rest).getD badOp
   | "table" :: rest =>
     match ((kv? rest "logN").bind String.toNat?, (kv? rest "kind").bind String.toNat?) with
